@@ -257,6 +257,11 @@ impl Prop for C01 {
                 let mut args = ws::base_args(threads);
                 args.push("-a".into());
                 args.push("-q".into());
+                if case.patch.len() % 3 == 0 {
+                    // producing the quilt backups rolls the application back in memory: it must still succeed
+                    args.push("--backup".into());
+                    args.push("always".into());
+                }
                 let out = ws::run_bin(&cx.env.bin, &root, &args, &Default::default(), &cx.env.scratch);
                 cx.evals += 1;
                 let snap = ws::snapshot(&root);
